@@ -8,10 +8,10 @@ From MSP Require Import L2.Sys L2.Szdd Proofs.Mon Proofs.SzddLedger.
    freed or closed that was not live/open at that moment (so: exactly once), nothing was used after release.
    [oracle] is ANY function from call numbers to host answers: every input, every failure of any callback at any point, in any
    combination, and any byte counts returned by write. *)
-Theorem C09_szdd_decompress_ledger : forall (o : oracle) fuel, clean (snd (run o mon0 (script_decompress fuel))).
+Theorem C09_szdd_decompress_ledger : forall (o : oracle) junk fuel, clean (snd (run o mon0 (script_decompress junk fuel))).
 Proof. exact szdd_script_decompress_clean. Qed.
 Print Assumptions C09_szdd_decompress_ledger.
 
-Theorem C09_szdd_open_extract_close_ledger : forall (o : oracle) fuel, clean (snd (run o mon0 (script_open_extract fuel))).
+Theorem C09_szdd_open_extract_close_ledger : forall (o : oracle) junk fuel, clean (snd (run o mon0 (script_open_extract junk fuel))).
 Proof. exact szdd_script_open_extract_clean. Qed.
 Print Assumptions C09_szdd_open_extract_close_ledger.
